@@ -8,6 +8,7 @@ package main
 // compares them with the header) and trace (root, identity root, next validation time, epoch, fee rate) per height.
 // Any rejection or any trace difference is a violation.
 import (
+	"hash/fnv"
 	"bufio"
 	"encoding/hex"
 	"encoding/json"
@@ -176,6 +177,41 @@ func blkLine(w *chainfx.World, b *types.Block) string {
 }
 
 // ansLine: what the node's ceremony object holds
+// candDigest: a number for a set of identities (indices in the world), order-free
+func candDigest(idx []int) uint32 {
+	sort.Ints(idx)
+	h := fnv.New32a()
+	for _, i := range idx {
+		h.Write([]byte{byte(i), byte(i >> 8), 0xff})
+	}
+	return h.Sum32()
+}
+
+// lotLine: for a block that starts the flip lottery, the identities that are ceremony candidates in the state after it
+// (independent of the ceremony object: read from the node's state), to be sent before the block's own line
+func lotLine(w *chainfx.World, n *chainfx.Node) string {
+	var idx []int
+	n.App.State.IterateOverIdentities(func(a common.Address, id state.Identity) {
+		if state.IsCeremonyCandidate(id) {
+			idx = append(idx, w.Index(a))
+		}
+	})
+	return fmt.Sprintf("lot %d", candDigest(idx))
+}
+
+// candsLine: the candidates the node's ceremony object holds
+func candsLine(w *chainfx.World, n *chainfx.Node) string {
+	ok, addrs := n.VC.FxCandidates()
+	if !ok {
+		return "none"
+	}
+	var idx []int
+	for _, a := range addrs {
+		idx = append(idx, w.Index(a))
+	}
+	return fmt.Sprint(candDigest(idx))
+}
+
 func ansLine(w *chainfx.World, n *chainfx.Node) string {
 	ep, recs := n.VC.FxRecords()
 	type e struct {
@@ -466,6 +502,7 @@ func c01follow(c *hx.Ctx, p c01params) error {
 		c.Hit("restarts")
 		c.Line("restart", "ok")
 		c.Line("ans", ansLine(w, n))
+		c.Line("cands", candsLine(w, n))
 	}
 	var blocks []*types.Block
 	var syncState *appstate.AppState // the check state of the running full-sync batch
@@ -524,8 +561,12 @@ func c01follow(c *hx.Ctx, p c01params) error {
 				c.Fail("C01:replica-rejects-block:"+p.Label, fmt.Sprintf("side block at height %d: %v", blk.Height(), err), p)
 				return nil
 			}
+			if blk.Header.Flags().HasFlag(types.FlipLotteryStarted) {
+				c.Line(lotLine(w, n), "ok")
+			}
 			c.Line(blkLine(w, blk), "ok")
 			c.Line("ans", ansLine(w, n))
+			c.Line("cands", candsLine(w, n))
 			// standing on the abandoned branch, the node evaluates the canonical continuation as a fork (the real
 			// ValidateSubChain on a check state of the common block): the same blocks must evaluate to the same roots as on a
 			// node that is on the canonical chain.  No certificates are supplied, so the only acceptable refusals are the two
@@ -617,6 +658,7 @@ func c01follow(c *hx.Ctx, p c01params) error {
 			syncState = nil
 			c.Line("reset 1", "ok")
 			c.Line("ans", ansLine(w, n))
+			c.Line("cands", candsLine(w, n))
 			c.Hit("fork-switches")
 			if p.Fork == 2 && !restart(blk.Height()) {
 				return nil
@@ -636,6 +678,7 @@ func c01follow(c *hx.Ctx, p c01params) error {
 			syncState = nil
 			c.Line(fmt.Sprintf("reset %d", k), "ok")
 			c.Line("ans", ansLine(w, n))
+			c.Line("cands", candsLine(w, n))
 			for _, rb := range blocks[len(blocks)-1-k : len(blocks)-1] {
 				cb, _ := chainfx.CloneBlock(rb)
 				fin := rb.Header.Flags().HasFlag(types.ValidationFinished)
@@ -650,8 +693,12 @@ func c01follow(c *hx.Ctx, p c01params) error {
 					c.Fail(sig, fmt.Sprintf("re-adding height %d (flags %d) after reset: %v", rb.Height(), rb.Header.Flags(), err), p)
 					return nil
 				}
+				if cb.Header.Flags().HasFlag(types.FlipLotteryStarted) {
+					c.Line(lotLine(w, n), "ok")
+				}
 				c.Line(blkLine(w, cb), "ok")
 				c.Line("ans", ansLine(w, n))
+				c.Line("cands", candsLine(w, n))
 			}
 			c.Hit("reorgs")
 		}
@@ -671,8 +718,12 @@ func c01follow(c *hx.Ctx, p c01params) error {
 			return nil
 		}
 		fmt.Fprintln(tf, traceLine(n))
+		if blk.Header.Flags().HasFlag(types.FlipLotteryStarted) {
+			c.Line(lotLine(w, n), "ok")
+		}
 		c.Line(blkLine(w, blk), "ok")
 		c.Line("ans", ansLine(w, n))
+		c.Line("cands", candsLine(w, n))
 		if p.RestartEvery > 0 && i%p.RestartEvery == 0 {
 			restart(blk.Height())
 		}
